@@ -383,3 +383,12 @@ def run(ctx):
     r3_decode_panics(ctx)
     r4_loops(ctx)
     r5_decode_errors(ctx)
+
+
+_run_rules = run
+
+
+def run(ctx):
+    _run_rules(ctx)
+    from .. import boundaries
+    boundaries.check(ctx, 'C08.RB', 'C08')
